@@ -35,11 +35,12 @@ def setCursor (cs : Nat) (cc : Option Nat) : JsCall :=
   let c := if valid c then c else colorLightGray
   .setCursorStyle ((Gen.wCursorClasses.lookup cs).getD "") (WScreen.hex pal c)
 
-def drawOp (rw : Rune → Int) (s : WS) (op : String) : WS × List JsCall × Bool :=
+def drawOp (rw : Rune → Int) (s : WS) (op : String) (fz : Bool := false) : WS × List JsCall × Bool :=
   match words op with
+  | ["variant", _] => (s, [], true)   -- `variant fz`: model variant marker (harness/engines/wasm.go), read by `runDraw`
   | ["size", w, h] => let r := setSize s (toInt! w) (toInt! h); (r.1, r.2, true)
   | ["sc", x, y, m, c, st] => (setContent rw s (toInt! x) (toInt! y) (toInt! m) (intList c) (Cb.parseStyle st), [], true)
-  | ["fill", r, st] => (fill s (toInt! r) (Cb.parseStyle st), [], true)
+  | ["fill", r, st] => (fillV fz rw s (toInt! r) (Cb.parseStyle st), [], true)
   | ["clear"] => (fill s 32 {}, [], true)
   | ["ss", st] => ({ s with style := Cb.parseStyle st }, [], true)
   | ["show"] => let r := WScreen.show pal s; (r.1, r.2, true)
@@ -54,8 +55,9 @@ def drawOp (rw : Rune → Int) (s : WS) (op : String) : WS × List JsCall × Boo
 
 def runDraw (rw : Rune → Int) (rest : String) : String :=
   let ops := splitTrim rest ";"
+  let fz := ops.any (fun o => words o == ["variant", "fz"])
   let (s, toks) := ops.foldl (fun (acc : WS × Array String) op =>
-    let (s', cs, ok) := drawOp rw acc.1 op
+    let (s', cs, ok) := drawOp rw acc.1 op fz
     (s', if ok then cs.foldl (fun a c => a.push (showCall c)) acc.2 else acc.2.push "bad-op")) (WS.init, #[])
   " ".intercalate (toks.toList ++ [s!"| {s.w} {s.h}"])
 
